@@ -212,6 +212,8 @@ pub struct Row {
     pub strict: bool,
     pub absent: String,
     pub optional: bool,
+    /// setter: the name written when none of `names` is present
+    pub dflt: String,
 }
 
 fn rows() -> &'static Vec<Row> {
@@ -239,6 +241,7 @@ fn rows() -> &'static Vec<Row> {
                     strict: r.get("strict").boolean(),
                     absent: r.get("absent").str(),
                     optional: r.get("optional").boolean(),
+                    dflt: r.get("default").str(),
                 }
             })
             .collect()
@@ -256,7 +259,7 @@ fn show_row(r: &Row) -> String {
         t => t.to_string(),
     };
     format!(
-        "{} {} {} [{}] {} {} {} {}",
+        "{} {} {} [{}] {} {} {} {} {}",
         r.kind,
         r.op,
         r.clear_op,
@@ -264,7 +267,8 @@ fn show_row(r: &Row) -> String {
         shape,
         ebool(r.strict),
         r.absent,
-        ebool(r.optional)
+        ebool(r.optional),
+        es(&r.dflt)
     )
 }
 
@@ -989,6 +993,7 @@ fn raw_sample(r: &Row) -> String {
         "dateYmd" => "2024-02-29".to_string(),
         "envMap" => "A=1".to_string(),
         "licenseText" => "MIT\ntext".to_string(),
+        "firstLine" | "restLines" => "synopsis\nlong text\nmore".to_string(),
         _ => "v".to_string(),
     }
 }
@@ -1015,7 +1020,10 @@ fn samples(a: &Acc, s: Option<&Row>) -> Vec<String> {
     let l = |v: &[&str]| format!("l{}", elist(v));
     let mut out: Vec<String> = match base.as_str() {
         "String" => {
-            if s.map(|r| r.tag == "composite").unwrap_or(false) || a.view == "dep3.PatchHeader" {
+            if s.map(|r| r.tag == "restLines").unwrap_or(false) {
+                // long description: several lines, one line, and the empty text (keeps only the synopsis)
+                vec![x("fix a bug"), x("line one\nline two"), x("")]
+            } else if s.map(|r| r.tag == "composite").unwrap_or(false) || a.view == "dep3.PatchHeader" {
                 vec![x("fix a bug"), x("https://bugs.example/1")]
             } else {
                 vec![x("foo"), x("a b (>= 1), c"), x("first line\nsecond line")]
@@ -1225,9 +1233,10 @@ pub fn handle(op: &str, a: &[&str]) -> Option<Resp> {
                                 .get(idx)
                                 .map(|p| p.iter().map(|f| f.0.clone()).filter(|n| !before[idx].iter().any(|f| &f.0 == n)).collect())
                                 .unwrap_or_default();
-                            let ok = if r.tag == "composite" { new.len() == 1 && r.names.contains(&new[0]) } else { new == vec![r.names[0].clone()] };
+                            // on a paragraph without any of its names the setter writes its default name
+                            let ok = if r.tag == "composite" { new.len() == 1 && r.names.contains(&new[0]) } else { new == vec![r.dflt.clone()] };
                             if !ok {
-                                fail = Some(format!("setter wrote field(s) {:?}, the table says {:?}", new, r.names[0]));
+                                fail = Some(format!("setter wrote field(s) {:?}, the table says {:?}", new, r.dflt));
                             }
                         }
                     } else {
